@@ -70,7 +70,9 @@ def hist_to_scenario(hist, sid, pool, nf, diff, reuse_sites=False):
                 st["flavour"] = "bool"
             else:
                 fl = POOL_FLAVOURS.get(pool, JUMP_FLAVOURS)
-                st["flavour"] = fl[(sid + ninst) % len(fl)]
+                # odd scenarios: a fake keeps its flavour (the SAME replacement function installed again later);
+                # even scenarios: the flavour rotates with every installation
+                st["flavour"] = fl[(sid + (int(h["fake"][1:]) if h["fake"][1:].isdigit() else 0)) % len(fl)] if sid % 2 else fl[(sid + ninst) % len(fl)]
             cur["steps"].append(st)
         elif a == "Panic":
             cur["steps"].append({"op": "panic"})
@@ -1195,6 +1197,23 @@ def lock_check(prop, tier):
     # one thread using both kinds of guard one after the other: preventer, then the injector lifetime(s), then a preventer
     for sc in scen2[::2]:
         sc["lives"] = [{"kind": "prev", "steps": [{"op": "probe"}]}] + sc["lives"] + [{"kind": "prev", "steps": [{"op": "probe"}]}]
+    # "when the holder lets go, by scope exit or by unwinding": a scope exit that itself fails -- the page of the one patched
+    # function refuses to become writable when it is to be restored, so the injector's destructor panics -- still lets go
+    nplain = len(scen2)
+    for k in range(nplain):
+        sc0 = scen2[k]
+        lives = sc0["lives"]
+        if len(lives) != 1 or lives[0].get("kind") != "inj":
+            continue
+        ins = [st for st in lives[0]["steps"] if st.get("op") == "install"]
+        if len(ins) != 1 or ins[0]["gate"] != "ok" or ins[0]["fault"] != "none" or any(st.get("op") in ("panic", "call_unwind") for st in lives[0]["steps"]):
+            continue
+        sc = json.loads(json.dumps(sc0))
+        sc["id"] = len(scen2) + 1
+        sc["lives"][0]["drop_fault"] = "mprotect"
+        scen2.append(sc)
+        hists.append(hists[k])
+    run.extra["failing_scope_exits"] = len(scen2) - nplain
     g2, o2, _ = vlib.run_harness("lifecycle", scen2, "lifecycle_C04")
     cfgp = tlc.make_cfg("Trace_Api", {"Props": '{"C04", "ALL"}'}, "Trace_Api_C04")
     tv3 = tlc.validate_traces("Trace_Api", cfgp, [(i, g2.get(i, [])) for i in range(1, len(hists) + 1)], WORK, "trace_C04", timeout=3000)
@@ -1205,7 +1224,7 @@ def lock_check(prop, tier):
         if sid not in tv3["accepted"]:
             reached, total = tv3["progress"][sid]
             evs = g2.get(sid, [])
-            run.violation("C04 guard-not-held history=%s" % history_key(hists[sid - 1]),
+            run.violation("C04 guard-not-held history=%s%s" % (history_key(hists[sid - 1]), " [restore fails at scope exit]" if sid > nplain else ""),
                           {"behaviour": hists[sid - 1], "trace_rejected_at": reached,
                            "first_unmatched_event": evs[reached] if reached < len(evs) else None})
     return run.finish()
